@@ -615,3 +615,85 @@ _more("C29", "write=True variables; the write history P a, C b, P a, C b, C "
 _more("C30", "the same group object stopped (running = False) and started "
       "again; an output set between two cycles from outside update() must be "
       "in the first frame sent afterwards.")
+
+
+# fourth round of additions (DESIGN.md section 10, fourth wave)
+_more("C01", "destination registers aliased to a leaf that occurs on both "
+      "sides of the outer operator at depth 2; unsigned constants with bit "
+      "63 set under shifts and divisions.")
+_more("C03", "byte-order-prefixed variables (local, packet and array-map "
+      "memory) as left and right operands of all comparisons and bit tests, "
+      "with values whose byte-reversed order differs from the numeric one.")
+_more("C05", "minimumPacketSize 0 1 13 14 15 1500 1514 x every default exit "
+      "code x programs with and without their own exit.")
+_more("C06", "mixed units: integer variables += / -= fixed-point amounts "
+      "(register, variable, constants, expressions) and the reverse; the "
+      "expected value is the set of sums under both conversion roundings.")
+_more("C08", "Python-side writes that struct refuses (after which Python and "
+      "the program must still read the last accepted value); run-time "
+      "indexed element access of multi-element variables through the "
+      "library idiom, with the map base registers compared after every "
+      "statement.")
+_more("C09", "two and three HashMaps and a Dict in one program class; "
+      "Structure classes that inherit from each other as Dict keys and "
+      "values, partly assigned instances, a second Dict using the base "
+      "classes.")
+_more("C10", "the inherited-Structure Dict configurations of C09.")
+_more("C11", "the same Packet / SterilePacket object assembled between "
+      "appends (every probe set up to depth 3, selected ones beyond, across "
+      "the 46-byte padding boundary and the datagram limits); positions "
+      "{0 1 -1 -2 -3 1000 30000 32767 -32768} x offsets {0 1 0x10 0x130 "
+      "0x502 0xffff} for every addressing kind.")
+_more("C12", "shaped requests: heads {none, H, HB, H + read-only I, "
+      "read-only I} x tails {none, bytes of length 0..8, counts 0..8}.")
+_more("C13", "data of every length 0..8 and counts 0..8; histories of 2-3 "
+      "requests on one EtherCat object in which earlier ones are refused at "
+      "pack time: nothing is sent for them and later requests equal those "
+      "on a fresh object.")
+_more("C14", "two and three concurrent users (to_operational with every "
+      "target, get_state) of one Terminal object, started together or "
+      "staggered; per-caller and terminal-wide oracle.")
+_more("C15", "several tasks of one process on the same terminal in every "
+      "order an event loop can produce, next to other processes; "
+      "participants that leave as the last one (remove without close) and "
+      "join again; class- and module-level data of ebpfcat.lock reset "
+      "before every execution.")
+_more("C17", "every category walk also as the second read_eeprom / "
+      "apply_eeprom on a Terminal object that read another image before; "
+      "NOP categories (type 0) with 0, 1, 2 words at every position.")
+_more("C18", "a second connect() of the master between the allocation of "
+      "two groups; Aerotech-style terminals with a declared size of 0.")
+_more("C19", "region starts are taken from the parsed frame where the "
+      "datagram is addressed to the terminal.")
+_more("C20", "both directions of a terminal through the sync group's own "
+      "map_fmmu; mappings refused where they are requested; sync managers "
+      "of size 0.")
+_more("C21", "frames arriving with enabled write datagrams and arbitrary "
+      "counters while output is disabled or the slot has just been taken "
+      "over; a successor group registering in the slot of a cancelled one.")
+_more("C22", "the ethertype of every frame returned to the bus (0x88A4) and "
+      "handed to user space (data0), for data0 equal to and different from "
+      "0x88A4; when a step depends on the upper bits of the counter word the "
+      "space is explored again with counters above 255.")
+_more("C23", "the ethertype sub-protocol among joiners of a lock directory "
+      "whose default lock file is free, held by a live process or left by a "
+      "dead one; simulated pids, os.kill(pid, 0), reading of lock files; a "
+      "call the simulated OS does not model freezes its caller and is "
+      "reported as a cap, never as 'held'.")
+_more("C24", "process groups execute the real loop of the child as a second "
+      "task, with the bus optionally silent for process data from the "
+      "cancellation on; terminals with 1-3 FMMUs; every cleanly cancelled "
+      "group is started again and must reach its next cycle.")
+_more("C25", "workloads are scripts of stages: user-chosen addresses "
+      "(initialize(absolute=X)) before and after a scan, pre-addressed "
+      "terminals appearing later, gentle_initialize on buses with duplicate "
+      "or out-of-range addresses, one Terminal object initialised at two "
+      "positions; every hand-out of find_free_address is observed.")
+_more("C26", "every bundled terminal a Motor can be linked to (EL7041, EL7332 "
+      "channel 1 and 2, one Motor per channel) x FMMU / direct / mixed "
+      "addressing x neighbours before and behind; inputs and outputs located "
+      "by parsing the frame; output bytes outside the Motor's channel must "
+      "not change.")
+_more("C28", "accept delays of 26..300 cycles.")
+_more("C29", "byte-string formats (4s, 6s) whose values end or start with "
+      "zero bytes.")
